@@ -413,6 +413,23 @@ class PassThrough(Exception):
   ag_pass_through = True
 
 
+def kwonly_required(a, b=2, *, k):
+  LOG.append(('kwonly_required', a, b, k))
+  if a > 0:
+    return ('kwonly', a + b, k)
+  return ('kwonly', a - b, k)
+
+
+def twice_caller(a, b=2):
+  # calls the same callees twice: what the first call leaves behind matters for the second
+  LOG.append(('twice_caller', a, b))
+  r1 = fn(a, b)
+  r2 = fn(b, a)
+  r3 = nested(a)
+  r4 = nested(b)
+  return ('twice', r1, r2, r3, r4)
+
+
 def raiser_passthrough(a, b=2):
   LOG.append(('raiser_passthrough', a, b))
   if a > 0:
@@ -529,6 +546,7 @@ ARGSETS = {
     'dec': [((__import__('decimal').Decimal('-1.234'),), None), ((), None)],
     'one': [((1,), None), ((), None)],
     'tape1': [(('@tape',), None), (('@tape',), {})],
+    'kwonly': [((1,), {'k': 5}), ((1,), None), ((1, 2), {}), ((), {'k': 1}), ((-1,), {'k': 0, 'b': 9})],
     'len': [(([1, 2, 3],), None), (((),), {}), ((5,), None), ((), None)],
     'abs': [((-3,), None), ((2.5,), {}), (('x',), None)],
     'max': [((1, 5, 3), None), (([4, 2],), {'key': None}), ((), None), ((3,), {'default': 0})],
@@ -624,6 +642,8 @@ def build_pool(lane, which):
   add('caller', 'function', U.caller, fnname='caller')
   add('raiser', 'function', U.raiser, fnname='raiser')
   add('raiser_passthrough', 'function', U.raiser_passthrough, fnname='raiser_passthrough')
+  add('kwonly_required', 'function', U.kwonly_required, argsets='kwonly', fnname='kwonly_required')
+  add('twice_caller', 'function', U.twice_caller, fnname='twice_caller')
   add('nested2', 'function', U.nested2, fnname='nested')
   add('star_caller', 'function', U.star_caller, fnname='star_caller')
   # partials
@@ -778,7 +798,7 @@ def init_zygote(lane):
 # ---------------------------------------------------------------------------
 # observers: which conversions were requested, which fallbacks happened
 # ---------------------------------------------------------------------------
-OBS = {'requests': [], 'fallbacks': [], 'on': False}
+OBS = {'requests': [], 'fallbacks': [], 'events': [], 'on': False}
 
 
 def _install_observers():
@@ -790,6 +810,8 @@ def _install_observers():
     if OBS['on']:
       code = getattr(getattr(fn, '__func__', fn), '__code__', None)
       OBS['requests'].append(code.co_name if code is not None else '?')
+      OBS['events'].append(('req', _rem_id(fn), common._opts_tuple(getattr(user_context, 'options', None)),
+                            code.co_name if code is not None else '?'))
     return orig(self, fn, user_context)
   transform_function.__wrapped_stage__ = orig
   klass.transform_function = transform_function
@@ -799,6 +821,8 @@ def _install_observers():
   def _fall_back_unconverted(f, args, kwargs, options, exc):
     if OBS['on']:
       OBS['fallbacks'].append((_rem_id(f), common._opts_tuple(options), type(exc).__name__))
+      if hasattr(getattr(f, '__func__', f), '__code__'):
+        OBS['events'].append(('fb', _rem_id(f), common._opts_tuple(options), type(exc).__name__))
     return fb(f, args, kwargs, options, exc)
   _fall_back_unconverted.__wrapped_stage__ = fb
   api._fall_back_unconverted = _fall_back_unconverted
@@ -875,7 +899,17 @@ def _gen_fault(rng, tier):
   return {'kind': 'disk-full', 'budget': rng.choice([0, 10, 200, 1000])}
 
 
-CONVERTIBLE = ['caller', 'caller', 'symbolic_eq_callable', 'strict_eq_callable', 'pseudo_file_fn', 'badrepr_method', 'badrepr_callable', 'local_gen_caller', 'decorated_local_caller', 'metaclass_call2', 'shadowed_call', 'fn', 'star_caller', 'nested2', 'raiser_passthrough', 'raiser', 'falsy_bag_method', 'falsy_obj_method', 'nt_method', 'metaclass_call', 'slotted_callable', 'manual_bound', 'fn', 'lam', 'nested', 'bound', 'unbound', 'cmeth', 'cmeth_inst', 'smeth', 'callable',
+RELATED = {
+    'class': ['callable', 'bound', 'cmeth_inst', 'unbound'], 'partial_class': ['callable', 'class'],
+    'callable': ['class'], 'nt_class': ['nt_method'], 'ntsub_class': ['nt_method'],
+    'metaclass_call': ['metaclass_call2'], 'partial1': ['fn'], 'partial_method': ['bound', 'unbound'],
+    'art_dnc': ['fn'], 'art_convert': ['smeth'], 'art_to_graph': ['nested', 'nested2'],
+    'bound': ['unbound', 'partial_method'], 'cmeth': ['cmeth_inst'], 'np_method': ['np_sub_overridden', 'np_sub_inherited'],
+    'mod:numpy.simpool': ['mod:numpy_like'], 'mod:malt.simpool': ['mod:malty'], 'tc_method': ['bound'],
+    'cached': ['fn'], 'gen': ['fn'], 'len': ['len_tape'],
+}
+
+CONVERTIBLE = ['caller', 'caller', 'twice_caller', 'twice_caller', 'kwonly_required', 'symbolic_eq_callable', 'strict_eq_callable', 'pseudo_file_fn', 'badrepr_method', 'badrepr_callable', 'local_gen_caller', 'decorated_local_caller', 'metaclass_call2', 'shadowed_call', 'fn', 'star_caller', 'nested2', 'raiser_passthrough', 'raiser', 'falsy_bag_method', 'falsy_obj_method', 'nt_method', 'metaclass_call', 'slotted_callable', 'manual_bound', 'fn', 'lam', 'nested', 'bound', 'unbound', 'cmeth', 'cmeth_inst', 'smeth', 'callable',
                'decorated', 'caller', 'raiser', 'partial1', 'partial_nested', 'partial_method',
                'partial_chain', 'partial_chain3', 'partial_subclass',
                'mod:malty', 'mod:numpy_like', 'mod:reporting', 'mod:copyx', 'np_sub_overridden',
@@ -897,6 +931,15 @@ def make_plan(seed, index, tier, sub):
       ops.append({'target': name, 'args': rng.randrange(len(aset)), 'opts': _gen_opts(rng),
                   'status': rng.choice(STATUSES) if rng.random() < 0.6 else 'UNSPECIFIED',
                   'via_scope': rng.random() < 0.3, 'strict': False, 'fault': None})
+      rel = RELATED.get(name)
+      if rel and rng.random() < 0.5:
+        # a related entity (class <-> instance, partial <-> target, bound <-> unbound ...) under the SAME
+        # options: a verdict recorded for one must not be applied to the other
+        n2 = rng.choice(rel)
+        t2 = Z['targets'][n2]
+        aset2 = ARGSETS[t2.argsets] if isinstance(t2.argsets, str) else t2.argsets
+        ops.append({'target': n2, 'args': rng.randrange(len(aset2)), 'opts': dict(ops[-1]['opts']),
+                    'status': rng.choice(STATUSES[:2]), 'via_scope': False, 'strict': False, 'fault': None})
       if rng.random() < 0.5:
         # the same target again, under options differing in one or two fields
         # and another status: what was decided or remembered for one option
@@ -986,6 +1029,7 @@ class Run(object):
     self.sim.tracer = sched.Tracer(self.sim)
     self.inj = faults.Injector()
     self.remembered = {}      # (target name, opts key) -> op index where the failure was remembered
+    self.failed_fns = {}      # (function identity, options) -> op index of its handled conversion failure
     self.cells = set()
     self.fault_cases = set()
     self.stats = {'ops': 0, 'faults_armed': 0, 'faults_fired': 0, 'fallbacks': 0, 'strict_raises': 0,
@@ -1081,6 +1125,7 @@ class Run(object):
     hits0 = dict(Z['overload_hits'])
     OBS['requests'] = []
     OBS['fallbacks'] = []
+    OBS['events'] = []
     OBS['on'] = True
     w0 = len(common.WARNINGS)
     sim.point('op', i, 0)
@@ -1133,6 +1178,17 @@ class Run(object):
     where = 'op%d converted_call(%s, args#%d, %s, status=%s%s%s)' % (
         i, t.name, op['args'], 'scope' if op['via_scope'] else 'options', op['status'],
         ', strict' if op.get('strict') else '', ', fault=%s' % _fault_str(fault) if fault else '')
+    # ---- T4 (any function, callees included): once a conversion failure of a function under
+    # some options has been handled, no conversion of it under equal options is requested again
+    for ev in OBS['events']:
+      key = (ev[1], ev[2])
+      if ev[0] == 'fb':
+        if ev[1] not in Z['exempt_ids']:
+          self.failed_fns.setdefault(key, i)
+      elif key in self.failed_fns and not op.get('strict'):
+        self.viol('T4', '%s: a conversion of %s under %s was requested again although its failure under equal '
+                  'options was handled at op%d' % (where, ev[3], ev[2], self.failed_fns[key]), 'callee-not-remembered')
+        break
     rem_key = (_rem_id(t.a), eff_tuple)
     was_remembered = rem_key in self.remembered
     # whatever the call wrapper fell back on in this op is remembered from now on
